@@ -57,10 +57,16 @@ class TaskiqResult(GenericModel, Generic[_ReturnType]):
         vals: Dict[str, Any] = dict["__dict__"]
 
         if "error" in vals and vals["error"] is not None:
-            vals["error"] = prepare_exception(
-                vals["error"],
-                pickle,
-            )
+            # The state refers to the instance's own __dict__,
+            # so we replace the error in a copy. Otherwise pickling
+            # would change the error of the result object itself.
+            dict = {
+                **dict,
+                "__dict__": {
+                    **vals,
+                    "error": prepare_exception(vals["error"], pickle),
+                },
+            }
 
         return dict
 
